@@ -208,13 +208,18 @@ func instrumentFile(pkg *packages.Package, f *ast.File, src []byte, short string
 
 	// sync types that have a model in verifrt are replaced by it; every other use of the package is reported
 	modelled := map[string]bool{"Mutex": true, "RWMutex": true, "Once": true, "Pool": true, "Map": true}
-	importsSync := false
+	modelledAtomic := map[string]string{"Pointer": "AtomicPointer", "Value": "AtomicValue", "Int32": "AtomicInt32", "Int64": "AtomicInt64", "Uint32": "AtomicUint32", "Uint64": "AtomicUint64",
+		"Uintptr": "AtomicUintptr", "Bool": "AtomicBool"}
+	importsSync, importsAtomic := false, false
 	for _, imp := range f.Imports {
 		if strings.Trim(imp.Path.Value, "\"") == "sync" {
 			importsSync = true
 		}
+		if strings.Trim(imp.Path.Value, "\"") == "sync/atomic" {
+			importsAtomic = true
+		}
 	}
-	rewrote := false
+	rewrote, rewroteAtomic := false, false
 	ast.Inspect(f, func(n ast.Node) bool {
 		sel, ok := n.(*ast.SelectorExpr)
 		if !ok {
@@ -225,6 +230,15 @@ func instrumentFile(pkg *packages.Package, f *ast.File, src []byte, short string
 			return true
 		}
 		pn, ok := pkg.TypesInfo.Uses[id].(*types.PkgName)
+		if ok && pn.Imported().Path() == "sync/atomic" {
+			if m, ok := modelledAtomic[sel.Sel.Name]; ok {
+				edits = append(edits, edit{off(sel.Pos()), off(sel.End()), "verifrt." + m})
+				rep.SyncModelled = append(rep.SyncModelled, pos(sel.Pos())+" atomic."+sel.Sel.Name)
+				rewroteAtomic = true
+			}
+			// the atomic functions (atomic.AddInt64, ...) never block: they are left alone (no scheduling point there)
+			return true
+		}
 		if !ok || pn.Imported().Path() != "sync" {
 			return true
 		}
@@ -241,6 +255,10 @@ func instrumentFile(pkg *packages.Package, f *ast.File, src []byte, short string
 		// keep the import used
 		end := off(f.End())
 		edits = append(edits, edit{end, end, "\nvar _ sync.Locker\n"})
+	}
+	if importsAtomic && rewroteAtomic {
+		end := off(f.End())
+		edits = append(edits, edit{end, end, "\nvar _ = atomic.LoadInt32\n"})
 	}
 
 	var funcStack []string
